@@ -87,6 +87,24 @@ def correspondence(ck, tier):
         m = h2arr(drive([f"topes {n} {f2h(c)} {arr2h(radial)} {arr2h(inten)}"])[0].split()[3:]).reshape(2, n)
         if not (close(e, m[0], 1e-15) and close(p, m[1], 1e-15)):
             ck.disagree("K.toPES", dict(n=n, c=c), "toPES differs from the model")
+    # … with its options: repeller voltage x zoom, photon energy, intensity per energy or per pixel (the model leaves the samples in radial
+    # order; the implementation sorts them by energy)
+    for _ in range(40 if tier == "quick" else 400):
+        n = int(rng.integers(2, 30))
+        radial = (np.arange(n) + float(rng.choice([0.0, 0.5]))) * float(rng.choice([1.0, 0.5, 2.0]))
+        inten = rng.random(n)
+        c = float(rng.uniform(0.1, 5))
+        vrep = None if rng.random() < 0.4 else -float(rng.uniform(50, 3000))
+        zoom = float(rng.choice([1.0, 0.5, 2.0, 501 / 2048]))
+        hv = None if rng.random() < 0.5 else float(rng.uniform(0.5, 2.0) * c * radial[-1] ** 2 * (abs(vrep) if vrep else 1))
+        per = bool(rng.integers(0, 2))
+        ck.count(("K.topes-opts", vrep is None, zoom == 1.0, hv is None, per), suite="K.toPES")
+        e, p = vmi.toPES(radial, inten.copy(), c, photon_energy=hv, Vrep=vrep, zoom=zoom, per_energy_scaling=per)
+        m = h2arr(drive([f"topes2 {n} {f2h(c)} {int(vrep is not None)} {f2h(vrep or 0.0)} {f2h(zoom)} {int(hv is not None)} {f2h(hv or 0.0)} {int(per)} "
+                         f"{arr2h(radial)} {arr2h(inten)}"])[0].split()[3:]).reshape(2, n)
+        order = np.argsort(m[0], kind="stable")
+        if not (close(e, m[0][order], 1e-14) and close(p, m[1][order], 1e-14)):
+            ck.disagree("K.toPES", dict(n=n, c=c, Vrep=vrep, zoom=zoom, photon_energy=hv, per_energy_scaling=per), "toPES with options differs from the model")
     ck.sample(dict(suite="K.coords", point=[float(pts[8][0]), float(pts[8][1])], polar=[float(v) for v in pol[8]]))
 
 
